@@ -19,8 +19,10 @@ LEVEL = "proof"
 THEOREMS = "Props/C02.v"
 EXTS = ["xtc", "trr", "dcd", "dtr"]
 RULE = ("cases = (format, api in {load(stride,frame), load_frame, iterload(chunk,stride,skip), load([files],stride)}, "
-        "T, stride>=1, chunk>=0, skip in [0,T], frame in [0,T), atom subset in {None,[0],[1,3],[0,2,3]}, 1..3 files); "
-        "thorough: exhaustive for T<=8, chunk 0..9, stride 1..4, skip 0..T (atom subset rotates with the case); "
+        "T, stride>=1, chunk>=0, skip in [0,T], frame in [0,T), atom subset in {None + 3 proper subsets}, 1..3 files) on files "
+        "whose configuration rotates from case to case through atom counts {1,3,4,10,13,20} x written with/without unit cell "
+        "(lammpstrj, dtr always with cell); "
+        "thorough: exhaustive for T<=8, chunk 0..9, stride 1..4, skip 0..T (atom subset and file configuration rotate with the case); "
         "quick: fixed witnesses + seeded sample; a case is non-trivial when stride>1 or skip>0 or an atom subset "
         "or a frame is given; distinct by hash of the case")
 TRUSTED = ["harness/impl/load_impl.py (writes the files, maps frames/atoms/time/cell to identifiers, forks per batch)",
@@ -39,16 +41,47 @@ FORMATS = {
     "h5": [1, 0], "nc": [2], "dcd": [3], "mdcrd": [3], "xyz": [3], "xyz.gz": [3], "lammpstrj": [3],
     "xtc": [5, 4], "trr": [5], "gro": [3, 10, 6], "dtr": [2, 7], "arc": [3, 10, 8], "pdb": [11, 9], "pdb.gz": [11, 9],
 }
-AIS = [None, [0], [1, 3], [0, 2, 3]]
 N_ATOMS = 4
+# configuration axes of the files themselves (rotated from case to case, never a full product):
+# atom counts (mdcrd writes 10 numbers per line, xtc switches codec above 9 atoms) x file written with / without unit cell
+CONFIGS = [(4, True), (10, False), (1, True), (20, True), (3, False), (13, True),
+           (10, True), (4, False), (20, False), (13, False), (1, False), (3, True)]
+NEEDS_CELL = ("lammpstrj", "dtr")          # their writers refuse a trajectory without unit cell
+
+
+def ais_for(n):
+    """None + three strictly increasing proper subsets of range(n) (fewer when n is too small)"""
+    if n == 1:
+        return [None, None, None, None]
+    if n == 3:
+        return [None, [0], [1], [0, 2]]
+    return [None, [0], [1, n - 2], [0, 2, n - 1]]
+
+
+def config(fmt, i):
+    n, cell = CONFIGS[i % len(CONFIGS)]
+    if fmt in NEEDS_CELL or (fmt == "mdcrd" and n == 1):
+        # one-atom mdcrd without box is ambiguous in the format itself (a 3-number line looks like a box line)
+        cell = True
+    return n, cell
 
 
 # ---------------------------------------------------------------------------------------------- cases
-def mk(fmt, kind, Ts, chunk=0, stride=1, skip=0, frame=None, ai=None):
+_rot = itertools.count()
+
+
+def mk(fmt, kind, Ts, chunk=0, stride=1, skip=0, frame=None, ai=0):
+    """ai = index into ais_for(n_atoms); the file configuration rotates with every case that is built"""
     T = Ts[0]
+    i = next(_rot)
+    n, cell = config(fmt, i // 4)
+    if isinstance(ai, int):
+        sel = ais_for(n)[ai % 4]
+    else:
+        sel = ai
     return {"fmt": fmt, "kind": kind, "Ts": list(Ts), "chunk": chunk, "stride": stride, "skip": skip, "frame": frame,
-            "ai": ai, "limit": T + 3,
-            "isolate": bool(fmt == "trr" and stride > 1 and ai is not None)}
+            "ai": sel, "limit": T + 3, "n_atoms": n, "cell": cell,
+            "isolate": bool(fmt == "trr" and stride > 1 and sel is not None)}
 
 
 def witnesses():
@@ -56,10 +89,10 @@ def witnesses():
     out = []
     for fmt in FORMATS:
         out += [mk(fmt, "iterload", [10], 3, 2, 0), mk(fmt, "iterload", [10], 2, 3, 1), mk(fmt, "iterload", [10], 4, 1, 10),
-                mk(fmt, "iterload", [10], 0, 2, 3, ai=[1, 3]), mk(fmt, "iterload", [10], 5, 2, 0, ai=[0, 2, 3]),
-                mk(fmt, "load", [10], stride=3), mk(fmt, "load", [10], stride=3, ai=[1, 3]),
+                mk(fmt, "iterload", [10], 0, 2, 3, ai=2), mk(fmt, "iterload", [10], 5, 2, 0, ai=3),
+                mk(fmt, "load", [10], stride=3), mk(fmt, "load", [10], stride=3, ai=2),
                 mk(fmt, "load", [10], stride=4, frame=4), mk(fmt, "load_frame", [10], frame=4),
-                mk(fmt, "load_frame", [10], frame=9, ai=[0]), mk(fmt, "load_list", [3, 2, 4], stride=2, ai=[0, 2, 3])]
+                mk(fmt, "load_frame", [10], frame=9, ai=1), mk(fmt, "load_list", [3, 2, 4], stride=2, ai=3)]
     return out
 
 
@@ -71,19 +104,19 @@ def exhaustive(fmts=None, Tmax=8):
             for c in range(0, 10):
                 for s in range(1, 5):
                     for k in range(0, T + 1):
-                        out.append(mk(fmt, "iterload", [T], c, s, k, ai=AIS[next(rot) % 4]))
+                        out.append(mk(fmt, "iterload", [T], c, s, k, ai=next(rot)))
             for s in range(1, 5):
-                for ai in AIS:
+                for ai in range(4):
                     out.append(mk(fmt, "load", [T], stride=s, ai=ai))
             for fr in range(T):
                 for s in (1, 3):
-                    out.append(mk(fmt, "load", [T], stride=s, frame=fr, ai=AIS[next(rot) % 4]))
-                out.append(mk(fmt, "load_frame", [T], frame=fr, ai=AIS[next(rot) % 4]))
+                    out.append(mk(fmt, "load", [T], stride=s, frame=fr, ai=next(rot)))
+                out.append(mk(fmt, "load_frame", [T], frame=fr, ai=next(rot)))
         sizes = [1, 2, 3, 5]
         for n in (1, 2, 3):
             for Ts in itertools.product(sizes, repeat=n):
                 for s in (1, 2, 3):
-                    out.append(mk(fmt, "load_list", list(Ts), stride=s, ai=AIS[next(rot) % 4]))
+                    out.append(mk(fmt, "load_list", list(Ts), stride=s, ai=next(rot)))
     return out
 
 
@@ -92,7 +125,7 @@ def sampled(rng, per_fmt):
     for fmt in FORMATS:
         for _ in range(per_fmt):
             T = rng.choice([1, 2, 3, 4, 5, 6, 7, 8, 8, 9])
-            ai = rng.choice(AIS)
+            ai = rng.randrange(4)
             r = rng.random()
             if r < 0.6:
                 c = rng.choice([0, 1, 1, 2, 3, 3, 4, 5, 6, 7, T, T + 1, 9])
@@ -220,7 +253,7 @@ def run_cases(ctx, cases, replaying=False):
     if pr.get("signaled") or (pr.get("exit") not in (0, None)):
         ctx.fail("trr: read(stride>1, atom_indices=subset) corrupts the heap (child process aborted)",
                  {"fmt": "trr", "kind": "load", "Ts": [6], "chunk": 0, "stride": 2, "skip": 0, "frame": None, "ai": [0],
-                  "limit": 9, "isolate": True, "probe": True},
+                  "limit": 9, "isolate": True, "probe": True, "n_atoms": 4, "cell": True},
                  observed=pr, expected="process exits normally", tags={"fmt": "trr", "kind": "memory_unsafe"})
     # ---- model / property comparison inside coqc
     jobs, coqcases = [], []
@@ -308,8 +341,11 @@ def run_cases(ctx, cases, replaying=False):
     for ci, (c, r) in enumerate(zip(cases, outs)):
         if c.get("probe"):
             continue
-        ctx.count({k: c[k] for k in ("fmt", "kind", "Ts", "chunk", "stride", "skip", "frame", "ai")},
+        ctx.count({k: c.get(k) for k in ("fmt", "kind", "Ts", "chunk", "stride", "skip", "frame", "ai", "n_atoms", "cell")},
                   nontrivial=nontrivial(c), bucket="%s/%s" % (c["fmt"], c["kind"]))
+        cfgs = ctx.notes.setdefault("coverage_extra", {}).setdefault("file_configurations", {})
+        ck = "%s atoms=%s cell=%s" % (c["fmt"], c.get("n_atoms", N_ATOMS), c.get("cell", True))
+        cfgs[ck] = cfgs.get(ck, 0) + 1
         if not expressible[ci]:
             continue
         fmt = c["fmt"]
@@ -375,8 +411,9 @@ def correspond(ctx):
         ce["exhaustive"] = True
         ce["exhaustive_scope"] = ("per format: iterload over T 1..8 x chunk 0..9 x stride 1..4 x skip 0..T; load over T x stride 1..4 x "
                                   "4 atom choices; load(frame)/load_frame over T x every frame; load([..]) over all lists of 1..3 files "
-                                  "with sizes in {1,2,3,5} x stride 1..3. The atom subset is NOT a product axis of iterload/load_frame/"
-                                  "load([..]): it rotates through {None,[0],[1,3],[0,2,3]} from case to case.")
+                                  "with sizes in {1,2,3,5} x stride 1..3. The atom subset and the file configuration (atom count in "
+                                  "{1,3,4,10,13,20} x with/without unit cell) are NOT product axes: they rotate from case to case "
+                                  "(all 48 combinations occur within any 48 consecutive cases).")
     run_cases(ctx, cases)
 
 
